@@ -14,6 +14,8 @@
   * `d2ir/d2ir.go: Map.createEdge` keyword checks → `edgeKeyword` / `edgeKeywordOld`
       the index found in the *resolved* edge path was used to index the *original* key path.
   * `d2ir/d2ir.go: EdgeID.resolve` underscore loop → `resolve` / `resolveOld`
+  * `d2ir/compile.go: compiler.resolveSubstitutions` case split → `resolveSubst` / `resolveSubstOld`
+  * `d2ir/d2ir.go: Map.DeleteField` keyword-holder test → `holderEmpty` / `holderEmptyOld`
   * `d2graph/d2graph.go: Object.newObject` on an object whose `Children` map is nil → `newObject` / `newObjectOld`
   * `d2compiler/compile.go: compiler.compileMap` class application → `applyClass` / fuel model of the old
       unguarded recursion; the class stack discipline.
@@ -309,6 +311,77 @@ def iterBoth (f : UPath → Except Crash UPath) : Nat → UPath → UPath → Ex
 
 def resolveOld (s d : UPath) : Except Crash (UPath × UPath) := iterBoth stripOld (max (countUnderscores s) (countUnderscores d)) s d
 def resolve (s d : UPath) : Except Crash (UPath × UPath) := iterBoth strip (max (countUnderscores s) (countUnderscores d)) s d
+
+/-! ### resolveSubstitutions: one `${x}` by the shape of the variable, the string form and the node -/
+
+inductive VShape where
+  | scalar | null | noValue | map | array | missing
+deriving Repr, BEq, DecidableEq
+
+inductive SForm where
+  | unqWhole | unqPart | dqWhole | dqPart | sq | md
+deriving Repr, BEq, DecidableEq
+
+inductive SNode where
+  | field | edge | arrayElem
+deriving Repr, BEq, DecidableEq
+
+inductive SubRes where
+  | substituted      -- the node now carries the value (or the string is left alone: single quotes, markdown)
+  | reported         -- a positioned error was recorded
+deriving Repr, BEq, DecidableEq
+
+/-- `resolveSubstitutions` (d2ir/compile.go), the case split of its three branches.  `dqNoValue` is what the
+    double-quoted branch does with a variable that has neither a primary value nor a composite. -/
+def resolveSubstWith (dqNoValue : Except Crash SubRes) (n : SNode) : SForm → VShape → Except Crash SubRes
+  | .sq, _ => .ok .substituted                       -- single-quoted strings carry no substitution boxes
+  | .md, _ => .ok .substituted                       -- block strings: only known scalar variables are replaced
+  | .unqWhole, .scalar => .ok .substituted
+  | .unqPart, .scalar => .ok .substituted
+  | .unqWhole, .map => .ok .substituted
+  | .unqWhole, .array => if n = .edge then .ok .reported else .ok .substituted   -- "cannot substitute array variable … to an edge"
+  | .unqPart, .map => .ok .reported                  -- "cannot substitute composite variable … as part of a string"
+  | .unqPart, .array => .ok .reported
+  | .unqWhole, .null => .ok .reported                -- a null variable counts as unresolved
+  | .unqPart, .null => .ok .reported
+  | .unqWhole, .noValue => .ok .reported             -- "cannot substitute variable without value"
+  | .unqPart, .noValue => .ok .reported
+  | .unqWhole, .missing => .ok .reported
+  | .unqPart, .missing => .ok .reported
+  | .dqWhole, .scalar => .ok .substituted
+  | .dqPart, .scalar => .ok .substituted
+  | .dqWhole, .null => .ok .substituted              -- Primary() is the Null scalar, its string is ""
+  | .dqPart, .null => .ok .substituted
+  | .dqWhole, .map => .ok .reported                  -- "cannot substitute map variable … in quotes"
+  | .dqPart, .map => .ok .reported
+  | .dqWhole, .array => .ok .reported
+  | .dqPart, .array => .ok .reported
+  | .dqWhole, .missing => .ok .reported
+  | .dqPart, .missing => .ok .reported
+  | .dqWhole, .noValue => dqNoValue
+  | .dqPart, .noValue => dqNoValue
+
+/-- before the fix: `resolvedField.Primary().Value` with `Primary() == nil` -/
+def resolveSubstOld := resolveSubstWith (.error .nilDeref)
+/-- current: "cannot substitute variable without value", as in the unquoted branch -/
+def resolveSubst := resolveSubstWith (.ok .reported)
+
+/-! ### DeleteField: "did the keyword holder become empty?" -/
+
+/-- what the parent field (`style`) of the deleted field holds -/
+inductive Holder where
+  | map (fields : Nat) | array | none
+deriving Repr, BEq, DecidableEq
+
+/-- old: `len(parent.Map().Fields) == 0` with `parent.Map() == nil` when `style` holds an array -/
+def holderEmptyOld : Holder → Except Crash Bool
+  | .map n => .ok (n == 0)
+  | _ => .error .nilDeref
+
+/-- current: `parent.Map() != nil && len(…) == 0` -/
+def holderEmpty : Holder → Except Crash Bool
+  | .map n => .ok (n == 0)
+  | _ => .ok false
 
 /-! ### d2graph `Object.newObject` under a class / sql_table object -/
 
